@@ -1,0 +1,8 @@
+//go:build verif
+
+package http
+
+// VerifApiParse calls the unexported client-side parser of the standard response.
+func VerifApiParse(url string, body []byte) (code int, data interface{}, err error) {
+	return apiParse(url, body)
+}
